@@ -25,7 +25,11 @@ FAMILY = {
             "generated_quantities_once_per_stored_iteration_from_post_transition_state"},
     "C09": {"starts_from_state_left_by_predecessor", "blocks_only_written_by_their_own_kernel",
             "probe_wrote_expected_tag"},
-    "C10": {"fresh_random_key_for_every_call", "keys_distinct_across_chains_and_calls"},
+    "C10": {"fresh_random_key_for_every_call", "keys_distinct_across_chains_and_calls",
+            "no_call_key_is_derived_from_another_calls_key"},
+    # C04's premise: the kernels of a sequence draw from independent streams
+    "C04": {"fresh_random_key_for_every_call", "keys_distinct_across_chains_and_calls",
+            "no_call_key_is_derived_from_another_calls_key"},
 }
 
 MC_CFG = """CONSTANTS FlagSet = {flag}
